@@ -81,7 +81,7 @@ async fn history(role: Role, max_len: usize, ch: &mut dyn Choose) -> Outc {
                         }
                     }
                     R::PubComp { pid, code, .. } if *pid <= 2 && code.unwrap_or(0) != 0x92 => {
-                        if st[*pid as usize] == IdState::RelPending {
+                        if matches!(st[*pid as usize], IdState::RelPending | IdState::AckPending(Kind::Rel)) {
                             st[*pid as usize] = IdState::Free;
                         }
                     }
@@ -111,7 +111,18 @@ async fn history(role: Role, max_len: usize, ch: &mut dyn Choose) -> Outc {
             if pick > 0 {
                 let (i, call, k) = running[pick - 1];
                 let gk = if matches!(k, Kind::Pub1 | Kind::Pub2) { GateKind::Pub } else { GateKind::Proto };
-                let outcome = if v5 && gk == GateKind::Pub && ch.chance(1, 3) { Outcome::Nack(0x87) } else { Outcome::Ok };
+                // v5: success, a positive non-success reason code (the exchange goes on as for
+                // success) or a negative acknowledgement
+                let outcome = if v5 && gk == GateKind::Pub {
+                    match ch.pick(4) {
+                        // 0x80 is the smallest negative reason code
+                        0 => Outcome::Nack(if ch.chance(1, 2) { 0x80 } else { 0x87 }),
+                        1 => Outcome::AckCode(0x10),
+                        _ => Outcome::Ok,
+                    }
+                } else {
+                    Outcome::Ok
+                };
                 app.open_gate((gk, call), outcome);
                 st[i] = IdState::AckPending(k);
                 c.settle().await;
@@ -140,16 +151,17 @@ async fn history(role: Role, max_len: usize, ch: &mut dyn Choose) -> Outc {
         };
         // protocol messages are handled one at a time: while one of their handlers is running a
         // further accepted protocol message is only buffered, so "entered" cannot be observed
-        let proto_running = (1..=2).any(|i| matches!(st[i], IdState::Running(Kind::Sub | Kind::Unsub, _)));
+        let proto_running = (1..=2).any(|i| matches!(st[i], IdState::Running(Kind::Sub | Kind::Unsub | Kind::Rel, _)));
         let is_proto = matches!(kind, Kind::Sub | Kind::Unsub | Kind::Rel);
         if expect_accept && is_proto && proto_running {
             n += 1;
             continue;
         }
-        let gated = expect_accept && kind != Kind::Rel && ch.chance(1, 2);
+        let gated = expect_accept && ch.chance(1, 2);
         if expect_accept {
+            let immediate = if v5 && !gated && ch.chance(1, 4) { Outcome::AckCode(0x10) } else { Outcome::Ok };
             match kind {
-                Kind::Pub1 | Kind::Pub2 => app.pub_plans.borrow_mut().push_back(PubPlan { read: ReadMode::Eager, gated, outcome: Outcome::Ok }),
+                Kind::Pub1 | Kind::Pub2 => app.pub_plans.borrow_mut().push_back(PubPlan { read: ReadMode::Eager, gated, outcome: immediate }),
                 _ => app.proto_plans.borrow_mut().push_back(ProtoPlan { gated, answer: ProtoAnswer::Ack }),
             }
         }
@@ -189,16 +201,11 @@ async fn history(role: Role, max_len: usize, ch: &mut dyn Choose) -> Outc {
                 _ => None,
             }).unwrap_or(0);
             st[id] = match (kind, gated) {
-                (Kind::Rel, true) => IdState::RelPending, // gated PUBREL handler: PUBCOMP pending (release via Running would need the call id)
                 (Kind::Rel, false) => IdState::RelPending,
+                // a gated PUBREL handler: the id stays in use until PUBCOMP has been produced
                 (k, true) => IdState::Running(k, call),
                 (k, false) => IdState::AckPending(k),
             };
-            if kind == Kind::Rel && gated {
-                // keep it simple: release the PUBREL handler right away
-                app.open_gate((GateKind::Proto, call), Outcome::Ok);
-                c.settle().await;
-            }
             absorb!();
         } else {
             // must be refused
